@@ -1,9 +1,145 @@
-"""C09 stub"""
+"""C09 -- clipped and subsetted datasets remain valid datasets with unchanged geometry.
+
+Functions under contract (real bodies): UGrid.apply_clip_mask, update_connectivity, _masked_integer_data_array, _get_start_index,
+Mesh2DTopology accessors; masking.mask_grid_dataset (geometry variables are masked like data: a selected cell keeps all its bounds);
+Convention.select_variables, get_all_geometry_names (CFGrid, ArakawaC, UGrid), utils.data_array_to_name, check_dataset of every convention
+on the clipped result.
+Specification (meshes).  The mask keeps a set of faces / edges / nodes; new index = rank among the kept ones (VALID-UGRID-MASK, produced by
+make_clip_mask: C07).  For every connectivity table T present in the input (abstract rows of entries, any encoding): the output has T with
+the same dimension order, start_index and integer storage type; row k of the output is row sel(k) of the input; an entry is present iff it
+was present and the element it names survives, and then it is the NEW index of that element (+ start_index).
+Polygons are a function of the geometry variables only (contracts of C02 / C06), so identical geometry variables give identical polygons.
+"""
+from __future__ import annotations
+
+import z3
+
+from contracts import inputs
+from props import C08
+from props.C10 import Table
+from pyvc import core
+from pyvc.api import (FIN, PathEnd, SFloat, Variable, XDataArray, XDataset, add_var, call, cls, expect_ok, expect_raise, fn, method,
+                      mk_bool, mk_int, new_interp, outcome, s_and, s_eq, s_implies, s_ite, s_not, s_or, sym_array, sym_size, zint)
+
 PROPERTY = 'C09'
 
 
 def scenarios(tier):
-    return []
+    out = []
+    for fill, si in (('int_fill', 1), ('nan', 0), ('none', 1), ('int_fill', 0)):
+        for edges in ('none', 'both'):
+            if fill == 'nan' and edges == 'both' and tier == 'quick':
+                continue            # NaN-encoded tables multiply the paths (thorough tier)
+            out.append({'name': f'clipped mesh: face_node / edge_node renumbered[{fill}, start_index={si}, edges={edges}]', 'fn': 'scn_mesh_tables',
+                        'kwargs': {'fill': fill, 'si': si, 'edges': edges}})
+    for table in ('face_edge', 'edge_face', 'face_face'):
+        for si in (0, 1):
+            out.append({'name': f'clipped mesh: {table} renumbered[start_index={si}]', 'fn': 'scn_optional_table', 'kwargs': {'table': table, 'si': si}})
+    for ci, cfg in enumerate(C08.GRID_CONFIGS):
+        out.append({'name': f'clipped grid keeps the geometry of selected cells[{cfg[0]}]', 'fn': 'scn_grid_geometry', 'kwargs': {'ci': ci}})
+    for conv, kw in (('CFGrid1D', {}), ('CFGrid1D', {'bounds': True}), ('CFGrid1D', {'bounds': 'coords'}), ('CFGrid2D', {'bounds': True}), ('CFGrid2D', {'bounds': 'coords'}),
+                     ('CFGrid2D', {'as_coords': False}), ('ShocStandard', {}), ('UGrid', {'edges': 'both'}), ('UGrid', {'edges': 'edge_node'}),
+                     ('UGrid', {'edges': 'none', 'face_coords': True, 'coords_as': 'coords'}), ('UGrid', {'edges': 'both', 'tables': ('face_edge', 'edge_face', 'face_face'), 'edge_coords': True})):
+        out.append({'name': f'select_variables keeps the geometry[{conv} {kw}]', 'fn': 'scn_select', 'kwargs': {'conv': conv, 'kw': kw}})
+    return out
 
 
-NATIVE = {'': 'clip_valid'}
+def scn_mesh_tables(c, fill, si, edges):
+    out = C08.scn_mesh_data(c, edges, fill=fill, si=si)
+    UGrid = None
+    it = new_interp()
+    check = expect_ok(c, 'check_dataset on the clipped dataset', lambda: call(it, core_attr(it, 'emsarray.conventions.ugrid', 'UGrid', 'check_dataset'), out))
+    c.check('the clipped dataset is still recognised as UGRID', check is not None)
+
+
+def core_attr(it, mod, klass, name):
+    return it.getattr(cls(it, mod, klass), name)
+
+
+def scn_optional_table(c, table, si):
+    """face_edge / edge_face / face_face: rows of kept faces / edges, entries renumbered, entries naming a dropped element become missing"""
+    from pyvc.lib.stdlib import OpaqueValue, PathModel
+    it = new_interp(use=[])
+    ds = inputs.ugrid_mesh(c, fill='int_fill', start_index=si, edges='both', tables=(table,))
+    info = ds.info
+    rowkind, colkind = table.split('_')
+    rowdim, width = ('nface', info['maxn']) if rowkind == 'face' else ('nedge', 2)
+    nrows = info['n' + rowkind]
+    upper = info['n' + colkind]
+    t = Table(c, table, nrows, width, 'int_fill', si, False, rowdim, 'maxn' if rowkind == 'face' else 'Two', upper)
+    ds._vars[table] = t.variable
+    en = Table(c, 'edge_node', info['nedge'], 2, 'none', si, False, 'nedge', 'Two', info['nnode'])
+    ds._vars['edge_node'] = en.variable
+    conv = it.instantiate(cls(it, 'emsarray.conventions.ugrid', 'UGrid'), [ds], {})
+    mask, sels, fillv = C08._mesh_mask(c, ds, True)
+    for n_ in (info['nnode'], info['nface'], info['nedge']):
+        c.assume(n_ < fillv - 1)
+    keep = {k: v[0] for k, v in sels.items()}
+    selR, selC = sels[rowkind][1], sels[colkind][1]
+    k, j = c.fresh_int('krow'), c.fresh_int('jcol')
+    for q, n_ in ((k, selR.count), (j, width)):
+        c.assume(q >= 0)
+        c.assume(q < n_)
+    r_old = selR.sel(k)
+    val = t.val(r_old, j)
+    present = mk_bool(zint(j) < zint(t.cnt(r_old)))
+    if table == 'face_edge':
+        c.assume(z3.Implies(present.z, keep['edge'](zint(val))))        # VALID-UGRID-MASK: the edges of a kept face are kept
+    work = PathModel(OpaqueValue('work_dir'))
+    out = expect_ok(c, 'apply_clip_mask returns', lambda: method(it, conv, 'apply_clip_mask', mask, work))
+    vo = out._vars.get(table)
+    c.check(f'{table} is present in the clipped dataset', vo is not None)
+    if vo is None:
+        raise PathEnd()
+    vi = t.variable
+    c.check(f'{table}: dimension order kept', vo.dims == vi.dims)
+    c.check(f'{table}: start_index kept', vo.attrs.get('start_index') == vi.attrs.get('start_index'))
+    c.check(f'{table}: saved as an integer table with a fill value', getattr(vo.encoding.get('dtype'), 'kind', None) == 'i' and vo.encoding.get('_FillValue') is not None and '_FillValue' not in vo.attrs)
+    c.check(f'{table}: one row per kept {rowkind}', s_eq(vo.arr.shape[0], selR.count))
+    got = vo.arr.fn((k, j))
+    survives = mk_bool(keep[colkind](zint(val)))
+    c.check(f'{table}: an entry is present exactly when row sel(k) has it and the {colkind} it names survives', s_eq(s_not(got.is_nan()), s_and(present, survives)))
+    c.check(f'{table}: a present entry is the NEW index of that {colkind} (+ start_index): it refers to a surviving element under the new numbering',
+            s_implies(s_and(present, survives), s_and(got.is_fin(), s_eq(got.val, selC.rank(val) + si), mk_bool(zint(selC.rank(val)) < zint(selC.count)))))
+
+
+def scn_grid_geometry(c, ci):
+    out = C08.scn_grid_dataset(c, ci)
+    conv_name = C08.GRID_CONFIGS[ci][0]
+    it = new_interp()
+    mod = {'CFGrid1D': 'emsarray.conventions.grid', 'CFGrid2D': 'emsarray.conventions.grid', 'ShocStandard': 'emsarray.conventions.shoc'}[conv_name]
+    check = expect_ok(c, 'check_dataset on the clipped dataset', lambda: call(it, core_attr(it, mod, conv_name, 'check_dataset'), out))
+    c.check(f'the clipped dataset is still recognised as {conv_name}', check is not None)
+
+
+def scn_select(c, conv, kw):
+    it = new_interp()
+    extra = {'CFGrid1D': [('temp', ('t', 'lat', 'lon'), 'floatnan'), ('salt', ('lat', 'lon'), 'floatnan')],
+             'CFGrid2D': [('temp', ('t', 'j', 'i'), 'floatnan'), ('salt', ('j', 'i'), 'floatnan')],
+             'ShocStandard': [('temp', ('t', 'j_centre', 'i_centre'), 'floatnan'), ('salt', ('j_node', 'i_node'), 'floatnan')],
+             'UGrid': [('temp', ('t', 'nface'), 'floatnan'), ('salt', ('nnode',), 'floatnan')]}[conv]
+    ds, cv = inputs.make_convention(it, c, conv, extra=extra, **kw)
+    names = expect_ok(c, 'get_all_geometry_names', lambda: method(it, cv, 'get_all_geometry_names'))
+    want = {'CFGrid1D': {'lat', 'lon'}, 'CFGrid2D': {'lat', 'lon'}, 'ShocStandard': {'x_centre', 'y_centre', 'x_left', 'y_left', 'x_back', 'y_back', 'x_grid', 'y_grid'},
+            'UGrid': {'mesh', 'face_node', 'node_x', 'node_y'}}[conv]
+    if kw.get('bounds'):
+        want |= {'lat_bnds', 'lon_bnds'}
+    if conv == 'UGrid':
+        for tname in ('edge_node', 'face_edge', 'edge_face', 'face_face', 'edge_x', 'edge_y', 'face_x', 'face_y'):
+            if tname in ds._vars:
+                want.add(tname)
+    c.check('the geometry inventory is every variable the polygons / topology are computed from', set(names) == want and len(names) == len(set(names)))
+    for keep in ([], ['temp'], ['temp', 'salt']):
+        sub = expect_ok(c, f'select_variables({keep})', lambda: method(it, cv, 'select_variables', list(keep)))
+        c.check(f'select_variables({keep}): the requested variables are kept, other data variables are dropped',
+                {k for k in sub._vars if k in ('temp', 'salt')} == set(keep))
+        for g in sorted(want):
+            v0, v1 = ds._vars[g], sub._vars.get(g)
+            c.check(f'select_variables({keep}): geometry variable {g!r} is kept untouched (same data, dimensions, attributes)',
+                    v1 is not None and v1.arr is v0.arr and v1.dims == v0.dims and v1.attrs == v0.attrs)
+            c.check(f'select_variables({keep}): {g!r} stays a {"coordinate" if g in ds._coord_names else "variable"}',
+                    v1 is not None and (g in sub._coord_names) == (g in ds._coord_names))
+        c.check(f'select_variables({keep}): global attributes kept', sub.attrs == ds.attrs)
+
+
+NATIVE = {'': 'clip_valid', 'select_variables': 'select_variables'}
